@@ -34,7 +34,8 @@ def render(t):
 
 
 def strip_annot(s):
-    return re.sub(r"\(\d+\)", "", s.split(";")[0])
+    # "(n)" at the end of a column description only (a field may be called 'n(1)')
+    return re.sub(r"\(\d+\)(?=,|$)", "", s.split(";")[0])
 
 
 def twin_kwargs(P, case):
